@@ -886,6 +886,7 @@ struct ExactModel
   long dP = 8, dPi = 1, dE = 8;
   Tab c0n, can, cbn; // numerators over dE
   std::vector<Theta> settings; // dyadic transition-parameter settings the updates move between
+  std::vector<int> ex;         // per-site binary exponent: emissions of site t are (numerator / dE) * 2^-ex[t]
   std::vector<long> lamDen;    // unused
 };
 
@@ -989,7 +990,7 @@ static void exactEvent(Rng& g, const ExactModel& m, Built& o, const Theta& th, c
   for (size_t i = 0; i < c.len; ++i)
   {
     Arr r;
-    for (size_t s = 0; s < c.n; ++s) r.add(num(E(i, s), m.dE, near));
+    for (size_t s = 0; s < c.n; ++s) r.add(num(std::ldexp(E(i, s), m.ex[i]), m.dE, near));
     En.add(r);
   }
   ev.kv("dP", m.dP).kv("dPi", m.dPi).kv("dE", m.dE).kv("P", P).kv("Pm", P2).kv("Pi", Pi).kv("E", En).kv("near", near);
@@ -1002,11 +1003,32 @@ static void exactEvent(Rng& g, const ExactModel& m, Built& o, const Theta& th, c
     return;
   }
   bool ln = true, tn = true, sn = true;
-  double lik = 0;
-  std::string lr = outcome<bpp::Exception>([&]() { lik = std::exp(o.lik->getLogLikelihood()); });
+  // likelihood = (L / scale) * 2^-k with k = sum of the per-site exponents: L = exp(logL + k log 2) * scale
+  double lik = 0, logL = 0;
+  long kexp = 0;
+  for (int x : m.ex) kexp += x;
+  std::string lr = outcome<bpp::Exception>([&]() {
+    logL = o.lik->getLogLikelihood();
+    lik = std::exp(logL + static_cast<double>(kexp) * std::log(2.0));
+  });
   long L = num(lik, static_cast<long>(scale), ln);
   bool valueAgrees = o.lik->getValue() == -o.lik->getLogLikelihood();
-  ev.kv("L", L).kv("Lnear", ln).kv("Lr", lr).kv("valueAgrees", valueAgrees);
+  // rank fact: the two other algorithms (fresh objects, same parameters and break points) agree to 1e-9 relative
+  bool agree = true;
+  {
+    const char* others[] = {"rescaled", "logsum", "lowmem"};
+    for (const char* oc : others)
+    {
+      if (c.cls == oc) continue;
+      Conf c2 = c;
+      c2.cls = oc;
+      c2.chunk = std::string(oc) == "lowmem" ? 1 + g.below(c.len + 1) : 0;
+      double l2 = 0;
+      std::string r2 = outcome<bpp::Exception>([&]() { l2 = build(c2, th, bps).lik->getLogLikelihood(); });
+      if (r2 != "ok" || !(std::fabs(l2 - logL) <= 1e-9 * std::max(1.0, std::fabs(logL)))) agree = false;
+    }
+  }
+  ev.kv("L", L).kv("Lnear", ln).kv("Lr", lr).kv("valueAgrees", valueAgrees).kv("k", kexp).kv("fin", std::isfinite(logL)).kv("agree", agree);
   // posteriors: T[i][s] = posterior_i(s) * L ; site likelihoods: SL[i] = lik_i * L * dE
   std::vector<std::vector<double>> pp;
   std::string pr = outcome<bpp::Exception>([&]() { o.lik->getHiddenStatesPosteriorProbabilities(pp, false); });
@@ -1025,7 +1047,7 @@ static void exactEvent(Rng& g, const ExactModel& m, Built& o, const Theta& th, c
     std::vector<double> sl = o.lik->getLikelihoodForEachSite();
     for (size_t i = 0; i < c.len; ++i)
     {
-      SL.add(num(sl[i] * static_cast<double>(L) * static_cast<double>(m.dE), 1, sn));
+      SL.add(num(std::ldexp(sl[i], m.ex[i]) * static_cast<double>(L) * static_cast<double>(m.dE), 1, sn));
       if (o.lik->getLikelihoodForASite(i) != sl[i]) rowsEq = false;
     }
   }
@@ -1173,6 +1195,23 @@ static long modeExact(Rng& g, long reps, long& scenarios, long& skipped)
           c.ca = scaleTab(m.can, 0.125);
           c.cb = scaleTab(m.cbn, 0.125);
           c.cq = constTab(len, n, 0.0);
+          // tiny emissions: half of the families scale whole sites by exact powers of two (2^-70 .. 2^-600,
+          // i.e. 1e-21 .. 1e-181): every state of such a site emits with a tiny probability
+          m.ex.assign(len, 0);
+          if (g.coin())
+          {
+            const int xs[] = {70, 150, 300, 600};
+            for (size_t i = 0; i < len; ++i)
+              if (g.coin()) m.ex[i] = xs[g.below(4)];
+            if (len > 1 && g.coin()) m.ex[1 + g.below(len - 1)] = xs[g.below(4)];
+          }
+          for (size_t i = 0; i < len; ++i)
+            for (size_t st = 0; st < n; ++st)
+            {
+              c.c0[i][st] = std::ldexp(c.c0[i][st], -m.ex[i]);
+              c.ca[i][st] = std::ldexp(c.ca[i][st], -m.ex[i]);
+              c.cb[i][st] = std::ldexp(c.cb[i][st], -m.ex[i]);
+            }
           // every subset of break points x every algorithm (x every chunk size)
           for (size_t mask = 0; mask < (1u << (len - 1)); ++mask)
           {
@@ -1191,6 +1230,11 @@ static long modeExact(Rng& g, long reps, long& scenarios, long& skipped)
               Obj rs;
               rs.kv("e", "Reset").kv("k", c.cls).kv("tm", c.tm).kv("n", c.n).kv("len", c.len).kv("chunk", c.chunk);
               rs.kv("c0", tabArr(m.c0n)).kv("ca", tabArr(m.can)).kv("cb", tabArr(m.cbn));
+              {
+                Arr xa;
+                for (int x : m.ex) xa.add(x);
+                rs.kv("x", xa);
+              }
               Arr tabs;
               for (const Tab& t : c.tables) tabs.add(tabArr(scaleTab(t, 8.0)));
               rs.kv("tables", tabs);
